@@ -2,8 +2,11 @@ import NibabelModel.Model.C14
 import NibabelModel.Lemmas.C14
 import NibabelModel.Lemmas.C14_Progress
 import NibabelModel.Lemmas.C14_Topo
+import NibabelModel.Lemmas.C14_Handles
+import NibabelModel.Lemmas.C14_Private
 import NibabelModel.Generated.C14Src
 import NibabelModel.Generated.C14Lock
+import NibabelModel.Generated.C14Handle
 import NibabelModel.Props.C06
 /-! Props/C14 — the property theorems for C14 "concurrent reads through a shared file handle never mix up
     data" (statements + short proofs; the work is in Lemmas/C14.lean).
@@ -17,17 +20,17 @@ namespace Nb.C14
 /-- states reachable from an initial state (no lock held) whose programs all have the locked shape w.r.t.
     lock `L` -/
 def Reachable (L : Nat) (file : List Byte) (s : State) : Prop :=
-  ∃ (progs : Tid → List Action) (nh : Nat) (p0 : Nat → Nat) (sched : List Tid),
-    (∀ t, wf L 0 false (progs t) = true) ∧ s = runS file (State.init progs nh p0) sched
+  ∃ (progs : Tid → List Action) (nh : Nat) (slot0 : Nat → Option Nat) (p0 : Nat → Nat) (sched : List Tid),
+    (∀ t, wf L 0 false (progs t) = true) ∧ s = runS file (State.initS progs nh slot0 p0) sched
 
-theorem inv_init (L : Nat) (progs : Tid → List Action) (nh : Nat) (p0 : Nat → Nat)
-    (h : ∀ t, wf L 0 false (progs t) = true) : Inv L (State.init progs nh p0) :=
-  ⟨fun u => by simpa [State.init, dep] using h u, fun u hu => by simp [State.init] at hu⟩
+theorem inv_init (L : Nat) (progs : Tid → List Action) (nh : Nat) (slot0 : Nat → Option Nat) (p0 : Nat → Nat)
+    (h : ∀ t, wf L 0 false (progs t) = true) : Inv L (State.initS progs nh slot0 p0) :=
+  ⟨fun u => by simpa [State.initS, dep] using h u, fun u hu => by simp [State.initS] at hu⟩
 
 /-- The lock-discipline invariant holds in every reachable state. -/
 theorem inv_reachable (L : Nat) (file : List Byte) (s : State) (h : Reachable L file s) : Inv L s := by
-  obtain ⟨progs, nh, p0, sched, hwf, rfl⟩ := h
-  exact inv_runS L file sched _ (inv_init L progs nh p0 hwf)
+  obtain ⟨progs, nh, slot0, p0, sched, hwf, rfl⟩ := h
+  exact inv_runS L file sched _ (inv_init L progs nh slot0 p0 hwf)
 
 def Action.isFileOp : Action → Bool
   | .seek _ => true | .seekEnd => true | .tell => true | .read _ => true | _ => false
@@ -113,11 +116,11 @@ theorem concurrent_eq_single_threaded (L : Nat) (file : List Byte) (progs : Tid 
     dataProj t (trace file (State.init (fun u => if u = t then progs t else []) nh p0) sched1) := by
   have hwf1 : ∀ u, wf L 0 false ((fun u => if u = t then progs t else []) u) = true := by
     intro u; by_cases hu : u = t <;> simp [hu, hwf t, wf]
-  have a := reads_complete L file (State.init progs nh p0) ⟨progs, nh, p0, [], hwf, rfl⟩ sched t hfin
+  have a := reads_complete L file (State.init progs nh p0) ⟨progs, nh, fun _ => none, p0, [], hwf, rfl⟩ sched t hfin
   have b := reads_complete L file (State.init (fun u => if u = t then progs t else []) nh p0)
-    ⟨_, nh, p0, [], hwf1, rfl⟩ sched1 t hfin1
+    ⟨_, nh, fun _ => none, p0, [], hwf1, rfl⟩ sched1 t hfin1
   rw [a, b]
-  simp [State.init]
+  simp [State.init, State.initS]
 
 /-! ### the programs nibabel produces have the locked shape, and their single-threaded meaning is
     "every read returns `file[o, o+n)`" -/
@@ -140,9 +143,14 @@ theorem wf_lockedWhole (L : Nat) (m r : Bool) (off n : Nat) (p : List Action) :
   cases m <;> cases r <;> simp [lockedWhole, wf]
 
 /-- (glue lemma: simp-unfolding of the program shape `getFileobjPersist`) -/
-theorem wf_getFileobjPersist (L : Nat) (p : List Action) :
-    wf L 0 false (getFileobjPersist ++ p) = wf L 0 false p := by
+theorem wf_getFileobjPersist (L q : Nat) (p : List Action) :
+    wf L 0 false (getFileobjPersist q ++ p) = wf L 0 false p := by
   simp [getFileobjPersist, wf, Action.slotOnly]
+
+/-- (glue lemma) a per-read opener: the thread's fresh private handle must be positioned before it is read -/
+theorem wf_getFileobjPerRead (L : Nat) (p : List Action) :
+    wf L 0 false (getFileobjPerRead ++ p) = wf L 0 false p := by
+  simp [getFileobjPerRead, wf]
 
 /-- expected events of `read_segments`: for each segment a seek to its offset and a read that returns
     exactly that segment of the file -/
@@ -182,19 +190,22 @@ theorem solo_lockedWhole (file : List Byte) (l : Nat) (m r : Bool) (off n : Nat)
 inductive Piece where
   | segs (viaCopy : Bool) (fresh : Nat) (segs : List (Nat × Nat))
   | whole (viaCopy : Bool) (fresh : Nat) (memmapTry reads : Bool) (off n : Nat)
-  | openPersist
+  | openPersist (q : Nat)      -- `_get_fileobj` of proxy `q` (persistent opener slot `q`)
+  | openPerRead                -- `_get_fileobj` of a name proxy without persistent opener: a private handle
 
 def Piece.lock (L : Nat) (viaCopy : Bool) (fresh : Nat) : Nat := if viaCopy then copyLock true L fresh else L
 
 def Piece.prog (L : Nat) : Piece → List Action
   | .segs c f sg => lockedSegs (Piece.lock L c f) sg
   | .whole c f m r off n => lockedWhole (Piece.lock L c f) m r off n
-  | .openPersist => getFileobjPersist
+  | .openPersist q => getFileobjPersist q
+  | .openPerRead => getFileobjPerRead
 
 def Piece.events (file : List Byte) : Piece → List DEv
   | .segs _ _ sg => segEvents file sg
   | .whole _ _ m r off n => wholeEvents file m r off n
-  | .openPersist => []
+  | .openPersist _ => []
+  | .openPerRead => []
 
 /-- (definitional glue: `Piece.lock` hard-codes `copyLock true`; the statement about `copyLock` itself, for both
     values of `_has_fh()`, is `copyLock_cases`, and the statement about whole derivation histories is
@@ -212,6 +223,7 @@ theorem wf_pieces (L : Nat) (ps : List Piece) : wf L 0 false (ps.flatMap (Piece.
     · rw [wf_lockedSegs]; exact ih
     · rw [wf_lockedWhole]; exact ih
     · rw [wf_getFileobjPersist]; exact ih
+    · rw [wf_getFileobjPerRead]; exact ih
 
 theorem solo_pieces (L : Nat) (file : List Byte) (ps : List Piece) :
     ∀ x, solo file x (ps.flatMap (Piece.prog L)) = ps.flatMap (Piece.events file) := by
@@ -224,6 +236,7 @@ theorem solo_pieces (L : Nat) (file : List Byte) (ps : List Piece) :
     · rw [solo_lockedSegs, ih]
     · rw [solo_lockedWhole _ _ _ _ _ _ _ (wf_pieces L r), ih]
     · simp [getFileobjPersist, solo, ih]
+    · simp [getFileobjPerRead, solo, ih]
 
 /-- `nibabel_reads_correct`: ANY number of threads, each performing ANY list of read requests (sliced reads
     with any segment lists, whole-array reads, with or without the lazily opened persistent opener, through
@@ -236,7 +249,7 @@ theorem nibabel_reads_correct (L : Nat) (file : List Byte) (pieces : Tid → Lis
     (((runS file s0 sched).threads t).prog = [] →
       dataProj t (trace file s0 sched) = (pieces t).flatMap (Piece.events file)) := by
   intro s0
-  have hr : Reachable L file s0 := ⟨_, nh, p0, [], fun u => wf_pieces L (pieces u), rfl⟩
+  have hr : Reachable L file s0 := ⟨_, nh, fun _ => none, p0, [], fun u => wf_pieces L (pieces u), rfl⟩
   have e : solo file (s0.pos (s0.threads t).cur) (s0.threads t).prog = (pieces t).flatMap (Piece.events file) := by
     simp only [s0, State.init]; exact solo_pieces L file (pieces t) _
   refine ⟨?_, fun hfin => ?_⟩
@@ -245,60 +258,60 @@ theorem nibabel_reads_correct (L : Nat) (file : List Byte) (pieces : Tid → Lis
 
 /-! ### deadlock freedom and completion (progress) -/
 
-theorem pinv_init (L : Nat) (progs : Tid → List Action) (nh : Nat) (p0 : Nat → Nat)
-    (h : ∀ t, good L 0 false (progs t) = true) : PInv L (State.init progs nh p0) :=
-  ⟨fun u => by simpa [State.init, dep] using h u, fun u hu => by simp [State.init] at hu⟩
+theorem pinv_init (L Q : Nat) (progs : Tid → List Action) (nh : Nat) (p0 : Nat → Nat)
+    (h : ∀ t, good L Q 0 false (progs t) = true) : PInv L Q (State.init progs nh p0) :=
+  ⟨fun u => by simpa [State.init, State.initS, dep] using h u, fun u hu => by simp [State.init, State.initS] at hu⟩
 
 /-- `no_deadlock`: programs that take only lock `L`, properly nested (RLock re-entrancy allowed), and read the
-    opener slot only after testing/filling it: in EVERY state reachable under ANY schedule, if some thread has
+    opener slot `Q` (of the one proxy they go through; any `Q`) only after testing/filling it: in EVERY state reachable under ANY schedule, if some thread has
     not finished then some unfinished thread is enabled — its next step consumes one of its actions (it is not
     blocked on the lock, does not release a lock it does not own, does not find `_opener` missing).  A thread
     blocked on `acquire L` implies `L` is owned by a thread that is inside its critical section and can itself
     always step. -/
-theorem no_deadlock (L : Nat) (file : List Byte) (progs : Tid → List Action) (nh : Nat) (p0 : Nat → Nat)
-    (hg : ∀ t, good L 0 false (progs t) = true) (sched : List Tid) (u : Tid)
+theorem no_deadlock (L Q : Nat) (file : List Byte) (progs : Tid → List Action) (nh : Nat) (p0 : Nat → Nat)
+    (hg : ∀ t, good L Q 0 false (progs t) = true) (sched : List Tid) (u : Tid)
     (hu : ((runS file (State.init progs nh p0) sched).threads u).prog ≠ []) :
     ∃ v, ((runS file (State.init progs nh p0) sched).threads v).prog ≠ [] ∧
       Progresses file (runS file (State.init progs nh p0) sched) v :=
-  progress L file _ (pinv_runS L file sched _ (pinv_init L progs nh p0 hg)) u hu
+  progress L Q file _ (pinv_runS L Q file sched _ (pinv_init L Q progs nh p0 hg)) u hu
 
 /-- `all_threads_complete`: `n` threads (all other programs empty); a schedule made of blocks, each block
     granting every thread `< n` at least one step (any order, any repetitions, other ids allowed), with at
     least as many blocks as there are actions in total: every thread finishes. -/
-theorem all_threads_complete (L : Nat) (file : List Byte) (progs : Tid → List Action) (nh : Nat) (p0 : Nat → Nat)
-    (n : Nat) (hg : ∀ t, good L 0 false (progs t) = true) (hb : ∀ t, n ≤ t → progs t = [])
+theorem all_threads_complete (L Q : Nat) (file : List Byte) (progs : Tid → List Action) (nh : Nat) (p0 : Nat → Nat)
+    (n : Nat) (hg : ∀ t, good L Q 0 false (progs t) = true) (hb : ∀ t, n ≤ t → progs t = [])
     (blocks : List (List Tid)) (hfair : ∀ b ∈ blocks, ∀ t, t < n → t ∈ b)
     (hlen : work n (State.init progs nh p0) ≤ blocks.length) (t : Tid) :
     ((runS file (State.init progs nh p0) blocks.flatten).threads t).prog = [] := by
-  have hb0 : Bounded n (State.init progs nh p0) := fun t ht => by simpa [State.init] using hb t ht
-  have h0 := fair_completes L file n blocks _ (pinv_init L progs nh p0 hg) hb0 hfair hlen
+  have hb0 : Bounded n (State.init progs nh p0) := fun t ht => by simpa [State.init, State.initS] using hb t ht
+  have h0 := fair_completes L Q file n blocks _ (pinv_init L Q progs nh p0 hg) hb0 hfair hlen
   by_cases ht : t < n
   · exact work_zero n _ h0 t ht
   · exact bounded_runS file n _ _ hb0 t (Nat.le_of_not_lt ht)
 
 /-- round-robin `0,1,…,n-1` repeated `k ≥ total number of actions` times finishes every thread -/
-theorem round_robin_completes (L : Nat) (file : List Byte) (progs : Tid → List Action) (nh : Nat)
-    (p0 : Nat → Nat) (n k : Nat) (hg : ∀ t, good L 0 false (progs t) = true) (hb : ∀ t, n ≤ t → progs t = [])
+theorem round_robin_completes (L Q : Nat) (file : List Byte) (progs : Tid → List Action) (nh : Nat)
+    (p0 : Nat → Nat) (n k : Nat) (hg : ∀ t, good L Q 0 false (progs t) = true) (hb : ∀ t, n ≤ t → progs t = [])
     (hk : work n (State.init progs nh p0) ≤ k) (t : Tid) :
     ((runS file (State.init progs nh p0) (List.replicate k (List.range n)).flatten).threads t).prog = [] := by
-  apply all_threads_complete L file progs nh p0 n hg hb
+  apply all_threads_complete L Q file progs nh p0 n hg hb
   · intro b hb' t ht; rw [List.eq_of_mem_replicate hb']; exact List.mem_range.mpr ht
   · simpa using hk
 
 /-- completion AND correctness: under a fair schedule every thread finishes having seen exactly its
     single-threaded file events -/
-theorem fair_run_correct (L : Nat) (file : List Byte) (progs : Tid → List Action) (nh : Nat) (p0 : Nat → Nat)
-    (n : Nat) (hwf : ∀ t, wf L 0 false (progs t) = true) (hg : ∀ t, good L 0 false (progs t) = true)
+theorem fair_run_correct (L Q : Nat) (file : List Byte) (progs : Tid → List Action) (nh : Nat) (p0 : Nat → Nat)
+    (n : Nat) (hwf : ∀ t, wf L 0 false (progs t) = true) (hg : ∀ t, good L Q 0 false (progs t) = true)
     (hb : ∀ t, n ≤ t → progs t = [])
     (blocks : List (List Tid)) (hfair : ∀ b ∈ blocks, ∀ t, t < n → t ∈ b)
     (hlen : work n (State.init progs nh p0) ≤ blocks.length) (t : Tid) :
     dataProj t (trace file (State.init progs nh p0) blocks.flatten) = solo file (p0 0) (progs t) := by
-  have hfin := all_threads_complete L file progs nh p0 n hg hb blocks hfair hlen t
-  have := reads_complete L file (State.init progs nh p0) ⟨progs, nh, p0, [], hwf, rfl⟩ blocks.flatten t hfin
-  simpa [State.init] using this
+  have hfin := all_threads_complete L Q file progs nh p0 n hg hb blocks hfair hlen t
+  have := reads_complete L file (State.init progs nh p0) ⟨progs, nh, fun _ => none, p0, [], hwf, rfl⟩ blocks.flatten t hfin
+  simpa [State.init, State.initS] using this
 
-theorem good_lockedSegs (L : Nat) (ss : Bool) (segs : List (Nat × Nat)) (p : List Action) :
-    good L 0 ss (lockedSegs L segs ++ p) = good L 0 ss p := by
+theorem good_lockedSegs (L Q : Nat) (ss : Bool) (segs : List (Nat × Nat)) (p : List Action) :
+    good L Q 0 ss (lockedSegs L segs ++ p) = good L Q 0 ss p := by
   induction segs with
   | nil => simp [lockedSegs]
   | cons sg r ih =>
@@ -308,40 +321,55 @@ theorem good_lockedSegs (L : Nat) (ss : Bool) (segs : List (Nat × Nat)) (p : Li
     simp only [lockedSegs] at ih
     simp [good, lockedSegs, ih]
 
-theorem good_lockedWhole (L : Nat) (ss m r : Bool) (off n : Nat) (p : List Action) :
-    good L 0 ss (lockedWhole L m r off n ++ p) = good L 0 ss p := by
+theorem good_lockedWhole (L Q : Nat) (ss m r : Bool) (off n : Nat) (p : List Action) :
+    good L Q 0 ss (lockedWhole L m r off n ++ p) = good L Q 0 ss p := by
   cases m <;> cases r <;> simp [lockedWhole, good]
 
-theorem good_getFileobjPersist (L : Nat) (ss : Bool) (p : List Action) :
-    good L 0 ss (getFileobjPersist ++ p) = good L 0 true p := by
+theorem good_getFileobjPersist (L Q : Nat) (ss : Bool) (p : List Action) :
+    good L Q 0 ss (getFileobjPersist Q ++ p) = good L Q 0 true p := by
   simp [getFileobjPersist, good, Action.slotOnly]
 
+theorem good_getFileobjPerRead (L Q : Nat) (ss : Bool) (p : List Action) :
+    good L Q 0 ss (getFileobjPerRead ++ p) = good L Q 0 ss p := by
+  simp [getFileobjPerRead, good]
+
+/-- the persistent-opener pieces of a request list all use the opener slot `Q` (requests through ONE proxy) -/
+def Piece.slotOk (Q : Nat) : Piece → Bool
+  | .openPersist q => q == Q
+  | _ => true
+
 /-- (glue lemma: the `good` shape of the nibabel programs, by unfolding) -/
-theorem good_pieces (L : Nat) (ps : List Piece) : ∀ ss, good L 0 ss (ps.flatMap (Piece.prog L)) = true := by
+theorem good_pieces (L Q : Nat) (ps : List Piece) (hq : ∀ p ∈ ps, p.slotOk Q = true) :
+    ∀ ss, good L Q 0 ss (ps.flatMap (Piece.prog L)) = true := by
   induction ps with
   | nil => intro ss; simp [good]
   | cons a r ih =>
     intro ss
+    have ih := ih (fun p hp => hq p (by simp [hp]))
+    have ha := hq a (by simp)
     simp only [List.flatMap_cons]
     cases a <;> simp only [Piece.prog, copy_shares_lock]
     · rw [good_lockedSegs]; exact ih ss
     · rw [good_lockedWhole]; exact ih ss
-    · rw [good_getFileobjPersist]; exact ih true
+    · simp only [Piece.slotOk, beq_iff_eq] at ha
+      subst ha
+      rw [good_getFileobjPersist]; exact ih true
+    · rw [good_getFileobjPerRead]; exact ih ss
 
 /-- `nibabel_all_complete`: `n` threads performing any lists of nibabel read requests (sliced, whole-array,
     lazily opened persistent opener, through the proxy or its `copy()`): no deadlock is possible, and under
     every fair schedule with enough blocks every thread finishes, having read exactly `file[o, o+n)` for each
     of its segments, in order. -/
-theorem nibabel_all_complete (L : Nat) (file : List Byte) (pieces : Tid → List Piece) (nh : Nat)
-    (p0 : Nat → Nat) (n : Nat) (hb : ∀ t, n ≤ t → pieces t = [])
+theorem nibabel_all_complete (L Q : Nat) (file : List Byte) (pieces : Tid → List Piece) (nh : Nat)
+    (p0 : Nat → Nat) (n : Nat) (hb : ∀ t, n ≤ t → pieces t = []) (hq : ∀ t, ∀ p ∈ pieces t, p.slotOk Q = true)
     (blocks : List (List Tid)) (hfair : ∀ b ∈ blocks, ∀ t, t < n → t ∈ b)
     (hlen : work n (State.init (fun u => (pieces u).flatMap (Piece.prog L)) nh p0) ≤ blocks.length) (t : Tid) :
     let s0 := State.init (fun u => (pieces u).flatMap (Piece.prog L)) nh p0
     ((runS file s0 blocks.flatten).threads t).prog = [] ∧
     dataProj t (trace file s0 blocks.flatten) = (pieces t).flatMap (Piece.events file) := by
   intro s0
-  have hfin := all_threads_complete L file (fun u => (pieces u).flatMap (Piece.prog L)) nh p0 n
-    (fun u => good_pieces L (pieces u) false) (fun u hu => by simp [hb u hu]) blocks hfair hlen t
+  have hfin := all_threads_complete L Q file (fun u => (pieces u).flatMap (Piece.prog L)) nh p0 n
+    (fun u => good_pieces L Q (pieces u) (hq u) false) (fun u hu => by simp [hb u hu]) blocks hfair hlen t
   exact ⟨hfin, (nibabel_reads_correct L file pieces nh p0 blocks.flatten t).2 hfin⟩
 
 /-! ### end to end: the arrays assembled from the reads a thread actually performed -/
@@ -456,7 +484,7 @@ theorem plan_sliced (c : Cfg) (L : Nat) (idx : List Nb.C06.IdxItem) (d : Nb.C06.
     (hw : isWhole idx c.shape = some false)
     (hcalc : Nb.C06.calcSlicedefs (Nb.C06.thresholdHeuristic Gen.skipThresh) idx c.shape c.isz c.off c.order = .ok d) :
     plan c ⟨L, false, some idx⟩ =
-      ⟨(if c.persist then getFileobjPersist else []) ++ lockedSegs L (natSegs d), (natSegs d).length,
+      ⟨openActs c ++ lockedSegs L (natSegs d), (natSegs d).length,
         finishSliced c d⟩ := by
   unfold plan
   simp only [hw, hcalc, wrapOuter]
@@ -515,7 +543,8 @@ theorem sliced_result_eq_numpy_partial (c : Cfg) (file : List Byte) (idx : List 
 
 /-- a sliced read request as nibabel executes it (proxy lock `L`, optionally the lazily opened opener) -/
 def slicedJob (c : Cfg) (d : Nb.C06.SliceDefs) : Job :=
-  ⟨(if c.persist then [Piece.openPersist] else []) ++ [Piece.segs false 0 (natSegs d)], finishSliced c d⟩
+  ⟨(if c.persist then [Piece.openPersist c.slotIx] else if c.perRead then [Piece.openPerRead] else [])
+    ++ [Piece.segs false 0 (natSegs d)], finishSliced c d⟩
 
 /-- (glue lemma, by unfolding `plan`) the job is exactly what the executable `plan` (the one the driver runs
     against the real code) produces -/
@@ -525,13 +554,14 @@ theorem slicedJob_plan (c : Cfg) (L : Nat) (file : List Byte) (idx : List Nb.C06
     Job.plan L file (slicedJob c d) = plan c ⟨L, false, some idx⟩ := by
   rw [plan_sliced c L idx d hw hcalc]
   unfold Job.plan slicedJob Job.reads
-  cases c.persist <;>
+  unfold openActs
+  cases c.persist <;> cases c.perRead <;>
     simp [Piece.prog, Piece.lock, Piece.reads, Piece.events, segEvents_reads, natSegs]
 
 theorem slicedJob_bytes (c : Cfg) (file : List Byte) (d : Nb.C06.SliceDefs) :
     ((slicedJob c d).reads file).flatten = segBytes file (natSegs d) := by
   unfold slicedJob Job.reads segBytes
-  cases c.persist <;> simp [Piece.reads, Piece.events, segEvents_reads]
+  cases c.persist <;> cases c.perRead <;> simp [Piece.reads, Piece.events, segEvents_reads]
 
 /-- a sliced request together with what NumPy indexing of the stored array gives for it -/
 structure SReq where
@@ -645,7 +675,7 @@ theorem reshape_new_lock_counterexample :
 def exProgs : Tid → List Action := fun t =>
   [lockedSegs 0 [(0, 2), (4, 2)],
    lockedWhole (copyLock true 0 1) true true 2 4,
-   [.acquire 0] ++ getFileobjPersist ++ lockedSegs 0 [(1, 3)] ++ [.release 0]].getD t []
+   [.acquire 0] ++ getFileobjPersist 3 ++ lockedSegs 0 [(1, 3)] ++ [.release 0]].getD t []
 
 theorem exProgs_wf : ∀ t, wf 0 0 false (exProgs t) = true := by
   intro t
@@ -659,7 +689,7 @@ theorem exProgs_wf : ∀ t, wf 0 0 false (exProgs t) = true := by
     thread 1 has already been blocked once -/
 def exState : State := runS cexFile (State.init exProgs 1) [0, 1]
 
-theorem exState_reachable : Reachable 0 cexFile exState := ⟨exProgs, 1, fun _ => 0, [0, 1], exProgs_wf, rfl⟩
+theorem exState_reachable : Reachable 0 cexFile exState := ⟨exProgs, 1, fun _ => none, fun _ => 0, [0, 1], exProgs_wf, rfl⟩
 
 -- inv_reachable / file_op_holds_lock: hypotheses hold for `exState`, thread 0, whose next action is a seek
 theorem exState_prog :
@@ -683,7 +713,7 @@ example : ((runS cexFile (State.init (fun u => if u = 0 then exProgs 0 else []) 
     [0, 0, 0, 0, 0, 0, 0, 0]).threads 0).prog = [] := by decide
 
 -- nibabel_reads_correct: pieces incl. a copy() read and the persistent opener
-example : (([Piece.openPersist, .segs true 5 [(0, 2), (4, 2)], .whole false 0 true true 2 4] : List Piece).flatMap
+example : (([Piece.openPersist 3, .openPerRead, .segs true 5 [(0, 2), (4, 2)], .whole false 0 true true 2 4] : List Piece).flatMap
     (Piece.events cexFile)) =
     [.seek 0, .read 2 [10, 11], .seek 4, .read 2 [14, 15], .seekEnd, .tell 8, .seek 2, .read 4 [12, 13, 14, 15]] := by
   decide
@@ -696,7 +726,7 @@ example : dataProj 0 (trace cexFile (cexInit (lockedSegs 0 [(0, 2)]) (lockedSegs
     [0, 0, 1, 0, 1, 0, 1, 1, 1, 1]) = [.seek 0, .read 2 [10, 11]] := by decide
 
 -- progress theorems: `exProgs` (3 threads incl. nested lock + persistent opener) is `good`, bounded by 3
-theorem exProgs_good : ∀ t, good 0 0 false (exProgs t) = true := by
+theorem exProgs_good : ∀ t, good 0 3 0 false (exProgs t) = true := by
   intro t
   match t with
   | 0 => decide
@@ -714,7 +744,7 @@ example : ((runS cexFile (State.init exProgs 1) [0, 1, 1]).threads 1).prog ≠ [
 -- all_threads_complete / round_robin_completes / fair_run_correct: 24 actions in total, 24 rounds suffice
 example : work 3 (State.init exProgs 1) = 24 := by decide
 example : ∀ t, ((runS cexFile (State.init exProgs 1) (List.replicate 24 (List.range 3)).flatten).threads t).prog = [] :=
-  round_robin_completes 0 cexFile exProgs 1 (fun _ => 0) 3 24 exProgs_good exProgs_bounded (by decide)
+  round_robin_completes 0 3 cexFile exProgs 1 (fun _ => 0) 3 24 exProgs_good exProgs_bounded (by decide)
 -- a fair block need not be round-robin
 example : ∀ t, t < 3 → t ∈ [2, 7, 0, 0, 1] := by decide
 
@@ -1094,4 +1124,331 @@ theorem thread_results_eq_numpy_mkFile_partial (c : Cfg) (L : Nat) (hisz : 0 < c
 example : exReq.OKd exCfg := ⟨exReq_ok.hv, exReq_ok.hw, exReq_ok.hcalc, exReq_ok.hnp, exReq_ok.hdec⟩
 example : exCfg.off + exCfg.isz * exCfg.shape.prod ≤ exCfg.flen := by decide
 
+/-! ### handle / lock topology of families: "same handle ⇒ same lock" -/
+
+/-- the family after a history, from the way the ORIGINAL proxy was made (`k`: over a caller-supplied handle
+    object / a file name with / without persistent opener; `igz`: `.gz` name with indexed gzip) -/
+def famOf (k : HKind) (igz : Bool) (ops : List HOp) : Fam := (Fam.root k).run igz ops
+
+/-- HANDLE TOPOLOGY, any history (`copy()`, `reshape()`, `copy.copy()`/unpickling, further constructions on the
+    same `file_like`, completed reads — each from any existing proxy, from any way of making the original):
+    two proxies of ONE copy()-family whose reads can go through the same OS-level handle use the same lock. -/
+theorem shared_handle_implies_shared_lock_family (k : HKind) (igz : Bool) (ops : List HOp)
+    (hv : validHist igz (Fam.root k) ops = true) (i j : Nat)
+    (hi : i < (famOf k igz ops).n) (hj : j < (famOf k igz ops).n)
+    (hfam : (famOf k igz ops).fam i = (famOf k igz ops).fam j)
+    (hh : (famOf k igz ops).handleOf i = (famOf k igz ops).handleOf j) :
+    (famOf k igz ops).lock i = (famOf k igz ops).lock j :=
+  finv_shared _ (finv_run igz ops _ (finv_root k) hv) i j hi hj hfam hh
+
+/-- `shared_handle_implies_shared_lock`: every family reachable by `copy()` (of any existing proxy, any number
+    of times, copies of copies), with reads in between (the state a proxy is in when copied) and — over a file
+    name — further constructions: ANY two proxies whose reads can go through the same OS-level handle use the
+    same lock.  This is the hypothesis the exclusion theorems (`Inv`: every file operation on the handle happens
+    under ONE lock) need. -/
+theorem shared_handle_implies_shared_lock (k : HKind) (igz : Bool) (ops : List HOp)
+    (hv : validHist igz (Fam.root k) ops = true) (hc : ∀ op ∈ ops, op.copyLike k = true) (i j : Nat)
+    (hi : i < (famOf k igz ops).n) (hj : j < (famOf k igz ops).n)
+    (hh : (famOf k igz ops).handleOf i = (famOf k igz ops).handleOf j) :
+    (famOf k igz ops).lock i = (famOf k igz ops).lock j := by
+  unfold famOf at *
+  have hI := finv_run igz ops _ (finv_root k) hv
+  have hz := copyLike_fam_zero igz k ops (Fam.root k) (by simp [Fam.root])
+    (fun _ i hi => by simp [Fam.root]) hv (by simp [Fam.root]) hc
+  by_cases hk : k = .handle
+  · exact finv_shared _ hI i j hi hj (by rw [hz.2 hk i hi, hz.2 hk j hj]) hh
+  · have hki : (famOf k igz ops).kind i ≠ .handle := fun e => hk (by rw [← hz.1]; exact (hI.kindU i hi).1 e)
+    have hkj : (famOf k igz ops).kind j ≠ .handle := fun e => hk (by rw [← hz.1]; exact (hI.kindU j hj).1 e)
+    rw [hI.lockN i hi hki, hI.lockN j hj hkj]
+    rcases handleOf_eq_name _ i j hki hkj hh with e | ⟨x, hoi, hoj⟩
+    · exact e
+    · exact oinj_run igz k ops _ (finv_root k) (oinj_root k) hv hc i j x hi hj hoi hoj
+
+/-- over a file NAME the proxies of such a family never share a handle at all: different proxies, different
+    OS-level handles (and every proxy has its own lock) -/
+theorem name_family_handles_private (k : HKind) (igz : Bool) (ops : List HOp) (hk : k ≠ .handle)
+    (hv : validHist igz (Fam.root k) ops = true) (hc : ∀ op ∈ ops, op.copyLike k = true) (i j : Nat)
+    (hi : i < (famOf k igz ops).n) (hj : j < (famOf k igz ops).n)
+    (hh : (famOf k igz ops).handleOf i = (famOf k igz ops).handleOf j) : i = j := by
+  unfold famOf at *
+  have hI := finv_run igz ops _ (finv_root k) hv
+  have hz := copyLike_fam_zero igz k ops (Fam.root k) (by simp [Fam.root])
+    (fun _ i hi => by simp [Fam.root]) hv (by simp [Fam.root]) hc
+  have hki : (famOf k igz ops).kind i ≠ .handle := fun e => hk (by rw [← hz.1]; exact (hI.kindU i hi).1 e)
+  have hkj : (famOf k igz ops).kind j ≠ .handle := fun e => hk (by rw [← hz.1]; exact (hI.kindU j hj).1 e)
+  rcases handleOf_eq_name _ i j hki hkj hh with e | ⟨x, hoi, hoj⟩
+  · exact e
+  · exact oinj_run igz k ops _ (finv_root k) (oinj_root k) hv hc i j x hi hj hoi hoj
+
+/-- what the other derivations do (observation, outside the property): `copy.copy()` of a keep_file_open proxy
+    that has already been read from takes over the opener OBJECT under a NEW lock -/
+theorem setstate_used_shares_handle_counterexample :
+    let f := famOf .persist false [.use 0, .derive (.setstate 0)]
+    f.handleOf 0 = f.handleOf 1 ∧ f.lock 0 ≠ f.lock 1 := by decide
+
+/-- the copy()-families of the family model are the `CopyConn` classes of the derivation history -/
+theorem family_iff_copy_connected (k : HKind) (igz : Bool) (ops : List POp) (hv : validOps 1 ops = true) (i j : Nat)
+    (hi : i ≤ ops.length) (hj : j ≤ ops.length) :
+    (famOf k igz (ops.map .derive)).fam i = (famOf k igz (ops.map .derive)).fam j ↔ CopyConn ops i j := by
+  have h := fam_eq_proxyLocks igz k ops hv
+  simp only at h
+  unfold famOf
+  rw [h.2.1 i hi, h.2.1 j hj]
+  exact same_lock_iff_copy_connected ops hv i j hi hj
+
+/-- HANDLE DISCIPLINE — a lexical fact about the CURRENT source of `arrayproxy.py`, re-extracted on every run
+    (Generated/C14Handle.lean).  It is what the rules of the family model `Fam.step` are read off:
+    * the ONLY place an `_opener` is created is `_get_fileobj` (`self._opener = ImageOpener(self.file_like, …)`,
+      guarded by `hasattr(self, '_opener')`; `__del__` resets it): `copy()` and `reshape()` store no opener on the
+      proxy they build (`Fam.step`: `opener := none`), so a persistent opener belongs to the proxy that created it;
+    * `__getstate__` copies `self.__dict__` and drops `_lock` ONLY, `__setstate__` updates `__dict__` with it: an
+      existing `_opener` is taken over by `copy.copy()`/unpickling (`Fam.step`: `opener := opener src`);
+    * `copy()` constructs over `self.file_like` with `keep_file_open=self._keep_file_open` (same handle kind);
+      `reshape()` constructs over `self.file_like` WITHOUT `keep_file_open` (`reshapeKind`);
+    * `_should_keep_file_open`: a file-like never persists an opener; a name does iff `keep_file_open or
+      (HAVE_INDEXED_GZIP and name ends with .gz)` (`HKind`, `igz`);
+    * `_get_fileobj`: persistent → probe / create / yield `self._opener` (`getFileobjPersist`), else one
+      `ImageOpener` per call inside a `with` (`getFileobjPerRead`). -/
+theorem handle_discipline_record :
+    GenHandle.openerStores =
+      [("ArrayProxy.__del__", "self", "None"),
+       ("ArrayProxy._get_fileobj", "self", "openers.ImageOpener(self.file_like, keep_open=self._keep_file_open)")] ∧
+    GenHandle.openerLoads =
+      [("ArrayProxy.__del__", "self"), ("ArrayProxy.__del__", "self"), ("ArrayProxy._get_fileobj", "self")] ∧
+    GenHandle.dictUses =
+      [("ArrayProxy.__getstate__", "self.__dict__"), ("ArrayProxy.__setstate__", "self.__dict__")] ∧
+    GenHandle.attrCalls =
+      [("ArrayProxy.__del__", "hasattr(self, '_opener')"), ("ArrayProxy._get_fileobj", "hasattr(self, '_opener')")] ∧
+    GenHandle.statePops = ["_lock"] ∧
+    GenHandle.ctorCalls =
+      [("ArrayProxy.copy", ["self.file_like", "spec"],
+        [("mmap", "self._mmap"), ("order", "self.order"), ("keep_file_open", "self._keep_file_open")]),
+       ("ArrayProxy.reshape", [],
+        [("file_like", "self.file_like"), ("spec", "(shape, self._dtype, self._offset, self._slope, self._inter)"),
+         ("mmap", "self._mmap"), ("order", "self.order")])] ∧
+    GenHandle.keepRule =
+      ["if self._has_fh(): return (False, False)",
+       "have_igzip = openers.HAVE_INDEXED_GZIP and self.file_like.endswith('.gz')",
+       "persist_opener = keep_file_open or have_igzip",
+       "return (keep_file_open, persist_opener)"] ∧
+    GenHandle.initFlags =
+      ["self.file_like = file_like",
+       "self._keep_file_open, self._persist_opener = self._should_keep_file_open(keep_file_open)"] ∧
+    GenHandle.getFileobj =
+      ["if self._persist_opener: if not hasattr(self, '_opener'): self._opener = openers.ImageOpener(self.file_like, keep_open=self._keep_file_open) yield self._opener else: with openers.ImageOpener(self.file_like, keep_open=False) as opener: yield opener"] :=
+  ⟨rfl, rfl, rfl, rfl, rfl, rfl, rfl, rfl, rfl⟩
+
+/-! ### run time: the persistent openers stay private -/
+
+theorem setOk_lockedSegs (L : Nat) (segs : List (Nat × Nat)) (p : List Action) :
+    setOk false (lockedSegs L segs ++ p) = setOk false p := by
+  induction segs with
+  | nil => simp [lockedSegs]
+  | cons sg r ih =>
+    have : lockedSegs L (sg :: r) = [.acquire L, .seek sg.1, .read sg.2, .release L] ++ lockedSegs L r := by
+      simp [lockedSegs]
+    rw [this]
+    simp only [lockedSegs] at ih
+    simp [setOk, lockedSegs, ih]
+
+theorem setOk_lockedWhole (L : Nat) (m r : Bool) (off n : Nat) (p : List Action) :
+    setOk false (lockedWhole L m r off n ++ p) = setOk false p := by
+  cases m <;> cases r <;> simp [lockedWhole, setOk]
+
+/-- the programs of nibabel's read requests publish only handles they have just opened -/
+theorem setOk_pieces (L : Nat) (ps : List Piece) : setOk false (ps.flatMap (Piece.prog L)) = true := by
+  induction ps with
+  | nil => simp [setOk]
+  | cons a r ih =>
+    simp only [List.flatMap_cons]
+    cases a <;> simp only [Piece.prog]
+    · rw [setOk_lockedSegs]; exact ih
+    · rw [setOk_lockedWhole]; exact ih
+    · simp [getFileobjPersist, setOk, headNotSet]
+      cases hr : List.flatMap (Piece.prog L) r with
+      | nil => simp [setOk]
+      | cons b t => rw [hr] at ih; cases b <;> simp [setOk] at ih ⊢ <;> exact ih
+    · simp only [getFileobjPerRead, List.cons_append, List.nil_append, setOk]; exact setOk_mono _ ih
+
+/-- `no_new_handle_sharing`: ANY number of threads, ANY programs that publish only handles they have just opened
+    (`setOk`), ANY schedule, from any initial contents `slot0` of the opener slots: whenever two different proxies
+    hold the same persistent handle, they already held it when the threads started. -/
+theorem no_new_handle_sharing (file : List Byte) (progs : Tid → List Action) (nh : Nat)
+    (slot0 : Nat → Option Nat) (p0 : Nat → Nat) (hs : ∀ q h, slot0 q = some h → h < nh)
+    (hp : ∀ t, setOk false (progs t) = true) (sched : List Tid) (p q h : Nat) (hpq : p ≠ q)
+    (h1 : (runS file (State.initS progs nh slot0 p0) sched).slot p = some h)
+    (h2 : (runS file (State.initS progs nh slot0 p0) sched).slot q = some h) :
+    slot0 p = some h ∧ slot0 q = some h := by
+  have hI := hinv_runS nh slot0 file sched _ (hinv_init progs nh slot0 p0 hs hp)
+  rcases hI.priv p h h1 with ⟨a, b⟩ | ⟨a, b⟩
+  · rcases hI.priv q h h2 with ⟨_, d⟩ | ⟨c, _⟩
+    · exact ⟨b, d⟩
+    · omega
+  · exact absurd (b q h2) (fun e => hpq e.symm)
+
+/-- `family_openers_stay_private`: topology + run time.  A family over a file name made by `copy()` (any
+    number, copies of copies), reads in between and further constructions; any number of threads performing any
+    read requests through any of its proxies; any schedule: in EVERY reachable state no two different proxies
+    hold the same persistent handle. -/
+theorem family_openers_stay_private (k : HKind) (igz : Bool) (ops : List HOp)
+    (hv : validHist igz (Fam.root k) ops = true) (hc : ∀ op ∈ ops, op.copyLike k = true)
+    (file : List Byte) (L : Tid → Nat) (pieces : Tid → List Piece) (p0 : Nat → Nat) (sched : List Tid)
+    (p q h : Nat)
+    (h1 : (runS file (State.initS (fun u => (pieces u).flatMap (Piece.prog (L u))) (famOf k igz ops).nopen
+            (famOf k igz ops).opener p0) sched).slot p = some h)
+    (h2 : (runS file (State.initS (fun u => (pieces u).flatMap (Piece.prog (L u))) (famOf k igz ops).nopen
+            (famOf k igz ops).opener p0) sched).slot q = some h) : p = q := by
+  unfold famOf at *
+  have hI := finv_run igz ops _ (finv_root k) hv
+  have hO := oinj_run igz k ops _ (finv_root k) (oinj_root k) hv hc
+  by_cases hpq : p = q
+  · exact hpq
+  · have hs : ∀ x y, (famOf k igz ops).opener x = some y → y < (famOf k igz ops).nopen := by
+      intro x y hx
+      by_cases hx' : x < (famOf k igz ops).n
+      · exact hI.openLt x y hx' hx
+      · have := hI.openDom x (Nat.le_of_not_lt hx'); unfold famOf at hx; rw [this] at hx; cases hx
+    have := no_new_handle_sharing file _ _ _ p0 hs (fun u => setOk_pieces (L u) (pieces u)) sched p q h hpq h1 h2
+    have hpn : p < (famOf k igz ops).n := by
+      by_cases hx' : p < (famOf k igz ops).n
+      · exact hx'
+      · have e := hI.openDom p (Nat.le_of_not_lt hx'); unfold famOf at this; rw [e] at this; cases this.1
+    have hqn : q < (famOf k igz ops).n := by
+      by_cases hx' : q < (famOf k igz ops).n
+      · exact hx'
+      · have e := hI.openDom q (Nat.le_of_not_lt hx'); unfold famOf at this; rw [e] at this; cases this.2
+    exact hO p q h hpn hqn this.1 this.2
+
+/-! non-vacuity -/
+def exHist : List HOp := [.use 0, .derive (.copy 0), .derive (.copy 1), .use 2, .ctor, .derive (.copy 3)]
+example : validHist false (Fam.root .persist) exHist = true ∧ (∀ op ∈ exHist, op.copyLike .persist = true) ∧
+    (famOf .persist false exHist).n = 5 ∧
+    (List.range 5).map (famOf .persist false exHist).lock = [0, 1, 2, 3, 4] ∧
+    (List.range 5).map (famOf .persist false exHist).handleOf = [.opener 0, .priv 1, .opener 1, .priv 3, .priv 4] := by
+  decide
+-- over a handle object: one handle, one lock
+example : validHist false (Fam.root .handle) [.use 0, .derive (.copy 0), .derive (.copy 1)] = true ∧
+    (List.range 3).map (famOf .handle false [.use 0, .derive (.copy 0), .derive (.copy 1)]).lock = [0, 0, 0] ∧
+    (famOf .handle false [.use 0, .derive (.copy 0), .derive (.copy 1)]).handleOf 0 =
+      (famOf .handle false [.use 0, .derive (.copy 0), .derive (.copy 1)]).handleOf 2 := by decide
+-- shared_handle_implies_shared_lock_family: a history with reshape / copy.copy in which proxies 2 and 3 are one family
+example : let f := famOf .handle false [.derive (.reshape 0), .derive (.copy 1), .derive (.setstate 0), .derive (.copy 1)]
+    f.fam 2 = f.fam 4 ∧ f.handleOf 2 = f.handleOf 4 ∧ f.lock 2 = f.lock 4 ∧ f.lock 0 ≠ f.lock 2 := by decide
+-- no_new_handle_sharing / family_openers_stay_private: two threads through a keep_file_open proxy and its copy,
+-- the double-open race included; the slots end up holding different handles
+example : let s := runS cexFile (State.initS (fun t => [getFileobjPersist 0 ++ lockedSegs 0 [(0, 2)],
+      getFileobjPersist 1 ++ lockedSegs 1 [(4, 2)], getFileobjPersist 0 ++ lockedSegs 0 [(2, 2)]].getD t []) 0
+      (fun _ => none)) [0, 2, 0, 2, 1, 1, 1, 0, 2, 2, 0]
+    s.slot 0 = some 1 ∧ s.slot 1 = some 2 := by decide
+example : setOk false (getFileobjPersist 0 ++ lockedSegs 0 [(0, 2)]) = true := by decide
+/-! ### proxies over a file NAME without a persistent opener (the default `keep_file_open=False`): every read has
+    a handle of its own, so NO lock is needed at all -/
+
+/-- `private_handle_reads_correct`: ANY number of threads, programs in which every file operation is on a handle the
+    thread opened itself (`wfO`; they may take and release ANY locks, in any way, or none), ANY schedule: what
+    thread `t` sees is a prefix of what it sees running alone, and all of it once it has finished. -/
+theorem private_handle_reads_correct (file : List Byte) (progs : Tid → List Action) (nh : Nat)
+    (slot0 : Nat → Option Nat) (p0 : Nat → Nat) (h : ∀ t, wfO false false (progs t) = true)
+    (sched : List Tid) (t : Tid) :
+    let s0 := State.initS progs nh slot0 p0
+    dataProj t (trace file s0 sched) <+: solo file (p0 0) (progs t) ∧
+    (((runS file s0 sched).threads t).prog = [] → dataProj t (trace file s0 sched) = solo file (p0 0) (progs t)) := by
+  intro s0
+  have key := run_solo_O file t sched s0 (oinv_init progs nh slot0 p0 h)
+  have e : solo file (s0.pos (s0.threads t).cur) (s0.threads t).prog = solo file (p0 0) (progs t) := by
+    simp [s0, State.initS]
+  rw [e] at key
+  refine ⟨⟨_, key⟩, fun hfin => ?_⟩
+  rw [hfin] at key
+  simpa [solo] using key
+
+/-- one read request through a proxy on a file name without persistent opener, whose lock is `l` (any proxy of
+    any family: the original, a `copy()`, a `reshape()`, a second construction — each has its own lock) -/
+inductive NPiece where
+  | segs (l : Nat) (segs : List (Nat × Nat))
+  | whole (l : Nat) (memmapTry reads : Bool) (off n : Nat)
+
+def NPiece.prog : NPiece → List Action
+  | .segs l sg => getFileobjPerRead ++ lockedSegs l sg
+  | .whole l m r off n => getFileobjPerRead ++ lockedWhole l m r off n
+
+def NPiece.events (file : List Byte) : NPiece → List DEv
+  | .segs _ sg => segEvents file sg
+  | .whole _ m r off n => wholeEvents file m r off n
+
+theorem wfO_lockedSegs (l : Nat) (segs : List (Nat × Nat)) (p : List Action) :
+    ∀ e, wfO true e (lockedSegs l segs ++ p) = true ↔ wfO true (e || !segs.isEmpty) p = true := by
+  induction segs with
+  | nil => intro e; simp [lockedSegs]
+  | cons sg r ih =>
+    intro e
+    have : lockedSegs l (sg :: r) = [.acquire l, .seek sg.1, .read sg.2, .release l] ++ lockedSegs l r := by
+      simp [lockedSegs]
+    rw [this]
+    simp only [lockedSegs] at ih
+    simp [wfO, lockedSegs, ih]
+
+theorem wfO_npieces (ps : List NPiece) : ∀ b e, wfO b e (ps.flatMap NPiece.prog) = true := by
+  induction ps with
+  | nil => intro b e; simp [wfO]
+  | cons a r ih =>
+    intro b e
+    simp only [List.flatMap_cons]
+    cases a with
+    | segs l sg =>
+      simp only [NPiece.prog, getFileobjPerRead, List.cons_append, List.nil_append, wfO]
+      rw [wfO_lockedSegs]; exact ih _ _
+    | whole l m rd off n =>
+      simp only [NPiece.prog, getFileobjPerRead, List.cons_append, List.nil_append, wfO]
+      cases m <;> cases rd <;> simp [lockedWhole, wfO, ih]
+
+theorem solo_npieces (file : List Byte) (ps : List NPiece) :
+    ∀ x, solo file x (ps.flatMap NPiece.prog) = ps.flatMap (NPiece.events file) := by
+  induction ps with
+  | nil => intro x; simp [solo]
+  | cons a r ih =>
+    intro x
+    simp only [List.flatMap_cons]
+    cases a with
+    | segs l sg =>
+      simp only [NPiece.prog, NPiece.events, getFileobjPerRead, List.cons_append, List.nil_append, solo]
+      rw [solo_lockedSegs, ih]
+    | whole l m rd off n =>
+      simp only [NPiece.prog, NPiece.events, getFileobjPerRead, List.cons_append, List.nil_append, solo]
+      cases m <;> cases rd <;> simp [lockedWhole, wholeEvents, solo, ih]
+
+/-- `name_family_reads_correct`: ANY number of threads, each performing ANY list of read requests (sliced or
+    whole-array) through ANY proxies of ANY family over a file name without persistent opener — whatever lock each
+    of these proxies uses — under ANY schedule: every thread's seeks and reads are a prefix of "seek o; read n ↦
+    file[o, o+n)" for its own segments in its own order, and all of them once it has finished. -/
+theorem name_family_reads_correct (file : List Byte) (pieces : Tid → List NPiece) (nh : Nat)
+    (slot0 : Nat → Option Nat) (p0 : Nat → Nat) (sched : List Tid) (t : Tid) :
+    let s0 := State.initS (fun u => (pieces u).flatMap NPiece.prog) nh slot0 p0
+    dataProj t (trace file s0 sched) <+: (pieces t).flatMap (NPiece.events file) ∧
+    (((runS file s0 sched).threads t).prog = [] →
+      dataProj t (trace file s0 sched) = (pieces t).flatMap (NPiece.events file)) := by
+  intro s0
+  have h := private_handle_reads_correct file (fun u => (pieces u).flatMap NPiece.prog) nh slot0 p0
+    (fun u => wfO_npieces (pieces u) false false) sched t
+  simp only [solo_npieces] at h
+  exact h
+
+/-- the sliced plan of the executable model for such a proxy is one of these requests -/
+theorem plan_perRead_sliced (c : Cfg) (L : Nat) (idx : List Nb.C06.IdxItem) (d : Nb.C06.SliceDefs)
+    (hp : c.persist = false) (hr : c.perRead = true)
+    (hw : isWhole idx c.shape = some false)
+    (hcalc : Nb.C06.calcSlicedefs (Nb.C06.thresholdHeuristic Gen.skipThresh) idx c.shape c.isz c.off c.order = .ok d) :
+    (plan c ⟨L, false, some idx⟩).prog = (NPiece.segs L (natSegs d)).prog := by
+  rw [plan_sliced c L idx d hw hcalc]
+  simp [openActs, hp, hr, NPiece.prog]
+
+-- non-vacuity: three threads reading through three proxies with three DIFFERENT locks (and a thread that takes no
+-- lock at all would do as well); thread 1 is pre-empted between its seek and its read by a seek of thread 0
+example : let ps : Tid → List NPiece := fun t => [[NPiece.segs 0 [(0, 2), (4, 2)]], [.whole 1 true true 2 4],
+      [.segs 2 [(1, 3)]]].getD t []
+    let s0 := State.initS (fun u => (ps u).flatMap NPiece.prog) 0 (fun _ => none)
+    dataProj 1 (trace cexFile s0 [1, 1, 1, 1, 1, 0, 0, 0, 2, 2, 2, 2, 2, 0, 1, 1]) =
+      [.seekEnd, .tell 8, .seek 2, .read 4 [12, 13, 14, 15]] ∧
+    ((runS cexFile s0 [1, 1, 1, 1, 1, 0, 0, 0, 2, 2, 2, 2, 2, 0, 1, 1]).threads 1).prog = [] := by decide
+example : wfO false false ([Action.opn, .seek 3, .read 2]) = true ∧ wfO false false [Action.seek 3] = false := by decide
 end Nb.C14
